@@ -317,7 +317,7 @@ def constants(ctx, selftest=False):
 
 
 INVS = ["Attributable", "WritesSelection", "ReadBack", "ScalarFills"]
-CAPS = {"slice1d": 5000, "nd": 5000, "mask": 800}
+CAPS = {"slice1d": 3500, "nd": 3500, "mask": 600}
 
 
 def enumerate_cases(ctx, selftest=False):
@@ -446,13 +446,21 @@ def _clause_names(text):
     return [c for c in text.strip("{} ").replace('"', "").split(", ") if c]
 
 
-def validate(ctx, pairs, report=True):
+def validate(ctx, pairs, report=True, extra=None):
+    """TLC decides the recorded assignments.  extra = (records, Python verdicts) of enumerated cases:
+    TLC's verdict on them must equal judge()'s (cross-check of the Python verdict function)."""
     spec, cfg = ctx.model(ctx.spec("array", "SetItemTrace.tla"), {})
     found = []
-    for lo in range(0, len(pairs), 2500):
+    for lo in range(0, max(len(pairs), 1), 2500):
         part = pairs[lo:lo + 2500]
         recs = [r for p in part for r in p]
-        rej = ctx.tlc_validate(spec, recs, cfg, timeout=1800)
+        xrecs = extra[0] if (extra and lo == 0) else []
+        rej = ctx.tlc_validate(spec, recs + xrecs, cfg, timeout=1800)
+        ctx.traces -= len(xrecs)
+        for x in xrecs:
+            t = sorted(_clause_names(rej.get(x["id"], ["{}"])[0]))
+            if t != extra[1][x["id"]]:
+                raise MachineryError("Python verdict %r and TLC verdict %r differ on %r" % (extra[1][x["id"]], t, x))
         byid = {r["id"]: r for r in recs}
         for rid, clauses in sorted(rej.items()):
             if rid.startswith("g"):
@@ -469,8 +477,9 @@ def validate(ctx, pairs, report=True):
     return found
 
 
-def crosscheck_verdicts(ctx, cases):
-    """judge() (Python) and SetItemTrace!Bad (TLC) must agree on the same observations."""
+def crosscheck_records(cases):
+    """Observations of enumerated cases as trace records + judge()'s verdict on them: judge() (Python)
+    and SetItemTrace!Bad (TLC) must agree on the same observations."""
     recs, verdicts = [], {}
     for n, c in enumerate(cases):
         case, exp = dict(c["c"]), c["e"]
@@ -482,12 +491,7 @@ def crosscheck_verdicts(ctx, cases):
         rid = "x%d" % n
         recs.append(dict(case, id=rid, dt="int64", cur=start_cells(case), obs=obs))
         verdicts[rid] = trim_clauses(judge(case, exp, obs, full), ORDER)
-    spec, cfg = ctx.model(ctx.spec("array", "SetItemTrace.tla"), {})
-    rej = ctx.tlc_validate(spec, recs, cfg, label="verdict cross-check")
-    for rid, v in verdicts.items():
-        t = sorted(_clause_names(rej.get(rid, ["{}"])[0]))
-        if t != v:
-            raise MachineryError("Python verdict %r and TLC verdict %r differ on %r" % (v, t, [r for r in recs if r["id"] == rid][0]))
+    return recs, verdicts
 
 
 def run(ctx):
@@ -504,9 +508,8 @@ def run(ctx):
         ctx.sample({"case": cases[0]["c"], "expected": cases[0]["e"]})
         cross += ctx.rng.sample(cases, min(len(cases), 60))
     replay_cases(ctx, "the enumerated cases", chosen)          # one worker pool for all families
-    crosscheck_verdicts(ctx, cross)
-    pairs = record_sequences(ctx, ctx.pick(500, 8000))
-    validate(ctx, pairs)
+    pairs = record_sequences(ctx, ctx.pick(400, 8000))
+    validate(ctx, pairs, extra=crosscheck_records(cross))
     if pairs:
         ctx.sample({"recorded_assignment": {k: pairs[0][0][k] for k in ("shape", "chunks", "idx", "val", "indexer")}})
     ctx.exhaustive = not sampled
